@@ -143,7 +143,8 @@ def run_tlc(module, cfg=None, env=None, workers=1, simulate=None, depth=None, se
     elif not os.path.isabs(cfg):
         cfg = os.path.join(SPEC, cfg)
     if metadir is None:
-        metadir = os.path.join(ROOT, "work", "tlc", os.path.basename(mod)[:-4] + "-" + str(os.getpid()))
+        import uuid
+        metadir = os.path.join(ROOT, "work", "tlc", os.path.basename(mod)[:-4] + "-" + str(os.getpid()) + "-" + uuid.uuid4().hex[:8])
     shutil.rmtree(metadir, ignore_errors=True)
     os.makedirs(metadir, exist_ok=True)
     jvm = ["java", "-XX:+UseParallelGC", "-Xss1g", "-Xmx" + xmx,
@@ -212,6 +213,50 @@ def run_tlc(module, cfg=None, env=None, workers=1, simulate=None, depth=None, se
         raise ToolError("TLC failed (rc=%s) on %s:\n%s" % (p.returncode, res.cmd, tail))
     if not finished and simulate is None:
         raise ToolError("TLC did not finish: " + res.cmd)
+    return res
+
+
+def run_tlc_sliced(module, cfg, trace_path, env=None, slices=8, env_key="TRACE", **kw):
+    """Mode V on a big ndjson: TLC loads ndjson slowly and a trace-validation run does not profit from several
+    workers, so the trace is split into contiguous slices, each validated by its own 1-worker JVM in parallel.
+    Returns a TlcResult with the merged PrintT tuples and summed state counts."""
+    from concurrent.futures import ThreadPoolExecutor
+    with open(trace_path) as f:
+        rows = [ln for ln in f if ln.strip()]
+    n = max(1, min(slices, (len(rows) + 199) // 200))
+    size = (len(rows) + n - 1) // n
+    paths = []
+    for i in range(n):
+        part = rows[i * size:(i + 1) * size]
+        if not part:
+            continue
+        p = "%s.slice%d" % (trace_path, i)
+        with open(p, "w") as f:
+            f.writelines(part)
+        paths.append(p)
+    kw["workers"] = 1
+
+    def one(p):
+        e = dict(env or {})
+        e[env_key] = p
+        return run_tlc(module, cfg, env=e, **kw)
+    t0 = time.time()
+    with ThreadPoolExecutor(len(paths)) as ex:
+        results = list(ex.map(one, paths))
+    for p in paths:
+        try:
+            os.remove(p)
+        except OSError:
+            pass
+    res = TlcResult()
+    for r in results:
+        res.tuples += r.tuples
+        res.generated += r.generated
+        res.distinct += r.distinct
+        res.lines += r.lines[:50]
+    res.wall = time.time() - t0
+    res.ok = all(r.ok for r in results)
+    res.cmd = results[0].cmd + " (x%d slices)" % len(results)
     return res
 
 
